@@ -116,6 +116,29 @@ STR_SUBJECTS = ('true', ' True ', 'YES', '0', 'off', 'maybe', '', 'tru', 't',
                 '\uff54rue', 'O\u0130')
 
 
+def str_subjects(thorough):
+    if not thorough:
+        return STR_SUBJECTS
+    out = set(STR_SUBJECTS)
+    words = TRUE_DOC + FALSE_DOC
+    for w in words:
+        forms = {w, w.upper(), w.title(), w.swapcase(), w[:1].upper() + w[1:]}
+        for f in forms:
+            for pre, post in (('', ''), (' ', ''), ('', ' '), ('\t', '\n'),
+                              ('\u00a0', ''), ('', '\u2003'), ('\r\n', ''),
+                              ('\x00', ''), ('', '\x0b'), ('\ufeff', '')):
+                out.add(pre + f + post)
+        # near misses
+        for i in range(len(w)):
+            out.add(w[:i] + w[i + 1:])
+            out.add(w[:i] + w[i] * 2 + w[i + 1:])
+        out.update((w + 's', 'x' + w, w + '.', w + '!', '"%s"' % w,
+                    w + ' ' + w, w.replace('e', '\u0435')))
+    out.update(('-1', '01', '1.0', '0.0', 'None', 'null', 'nil', 'enabled',
+                'disabled', '\u0661', '\u0660', 'y e s'))
+    return tuple(sorted(out))
+
+
 def _ref_bool(subject, strict, default):
     if isinstance(subject, bool):
         return ('return', subject)
@@ -137,7 +160,8 @@ def _bool(ctx):
                  'strutils.int_from_bool_as_string')
     subj, strict, default = (T('sym', 'subject'), T('sym', 'strict'),
                              T('sym', 'default'))
-    for kind, grid in (('bool', (True, False)), ('str', STR_SUBJECTS),
+    for kind, grid in (('bool', (True, False)),
+                       ('str', str_subjects(ctx.thorough)),
                        ('int', (0, 1, 2, -1)), ('NoneType', (None,)),
                        ('float', (1.0, 0.0))):
         def thunk(interp):
@@ -171,7 +195,7 @@ def _bool(ctx):
             return None
         return ('return', _ref_bool(s, True, None)[0] == 'return')
     grid_compare(rep, 'R14.2', 'is_valid_boolstr', 'unpadded words',
-                 outcomes, {val: STR_SUBJECTS}, oracle2)
+                 outcomes, {val: str_subjects(ctx.thorough)}, oracle2)
 
 
 def _ints(ctx):
